@@ -85,6 +85,7 @@ def native_check(kind, arch, env=None, seed=0):
 
 
 def replay(cfg, env, short):
+    C.VIA[0] = cfg.get("via")
     kind = cfg.get("kind") or ("positive" if cfg.get("part") == "positive-api" else "mixed" if cfg.get("rbm") == "purification" or cfg.get("part") == "gamma-pi-grad" else "complex")
     arch = cfg.get("arch") or ([cfg.get("n", 2), 2] + ([1] if kind == "mixed" else []))
     if kind == "mixed" and len(arch) == 2:
